@@ -147,8 +147,8 @@ def kset(name, harnesses, jobs=8, timeout=1800, extra=None):
 
 PWD = ['src/piecewise.rs: impl HasDerivative for Piecewise<T> :: derivative', 'src/piecewise.rs: impl HasDerivative for Segment<T> :: derivative']
 PROPS['C08']['kani'] = {
-    'quick': [kset('c08', hs('c08_pwderiv_n', 'piecewise', [1, 2, 3, 4], 'pieces N = {n}', PWD) + [H('c15_segment_ops', 'piecewise', None, True, PWD[1:])])],
-    'thorough': [kset('c08', hs('c08_pwderiv_n', 'piecewise', [1, 2, 3, 4], 'pieces N = {n}', PWD) + [H('c15_segment_ops', 'piecewise', None, True, PWD[1:])])],
+    'quick': [kset('c08', hs('c08_pwderiv_n', 'piecewise', [1, 2, 3, 4, 20], 'pieces N = {n}', PWD) + [H('c15_segment_ops', 'piecewise', None, True, PWD[1:])])],
+    'thorough': [kset('c08', hs('c08_pwderiv_n', 'piecewise', [1, 2, 3, 4, 20], 'pieces N = {n}', PWD) + [H('c15_segment_ops', 'piecewise', None, True, PWD[1:])])],
 }
 PROPS['C08']['level'] = 'other'
 PROPS['C08']['verus'] = ['u_polycalc', 'u_segment']
@@ -164,7 +164,8 @@ INT_FNS = ['src/piecewise.rs: Segment::integral_iter_ref', 'src/piecewise.rs: Se
 def c11_set(ns):
     out = []
     for pre, f in (('c11_integral_n', INT_FNS[2:3]), ('c11_iter_ref_n', INT_FNS[0:1]), ('c11_iter_n', INT_FNS[1:2]), ('c11_indefinite_n', INT_FNS[3:4])):
-        out += hs(pre, 'piecewise', ns, 'pieces N = {n}', f)
+        out += hs(pre, 'piecewise', [n for n in ns if n != 20], 'pieces N = {n}', f)
+    out += [H('c11_integral_n20', 'piecewise', 'pieces N = 20', False, INT_FNS[2:3])]
     out += [H('c11_integral_tiny_n3', 'piecewise', 'pieces N = 3; ordinates are multiples of 2^-60 (tiny magnitudes)', False, INT_FNS[2:3] + INT_FNS[4:5]),
             H('c11_iter_tiny_n2', 'piecewise', 'pieces N = 2; ordinates are multiples of 2^-60', False, INT_FNS[1:2]),
             H('c11_indefinite_tiny_n3', 'piecewise', 'pieces N = 3; ordinates are multiples of 2^-60', False, INT_FNS[3:4]),
@@ -172,12 +173,14 @@ def c11_set(ns):
             H('c11_iter_ref_filter_n3', 'piecewise', 'pieces N = 3; input iterator with an inexact size hint (filter)', False, INT_FNS[0:1]),
             H('c11_iter_nth_n3', 'piecewise', 'pieces N = 3; by-value iterator consumed with nth(2)', False, INT_FNS[1:2]),
             H('c11_iter_ref_nth_n3', 'piecewise', 'pieces N = 3; by-reference iterator consumed with nth(2)', False, INT_FNS[0:1])]
+    if 20 in ns:
+        out += [H('c11_indefinite_n20', 'piecewise', 'pieces N = 20', False, INT_FNS[3:4]), H('c11_iter_n20', 'piecewise', 'pieces N = 20', False, INT_FNS[1:2])]
     return out + [H('c11_empty', 'piecewise', None, True, INT_FNS[2:4])]
 
 
 PROPS['C11'] = {
     'verus': ['u_segment'],
-    'kani': {'quick': [kset('c11', c11_set([1, 2, 3, 4]))], 'thorough': [kset('c11', c11_set([1, 2, 3, 4]), timeout=6000)]},
+    'kani': {'quick': [kset('c11', c11_set([1, 2, 3, 4]))], 'thorough': [kset('c11', c11_set([1, 2, 3, 4, 20]), timeout=6000)]},
     'probe': True,
     'level': 'other',
     'explanation': 'Per piece (Verus, unit u_segment, real bodies, ANY piece type satisfying the trait contracts): Segment::integral(knot) keeps the breakpoint, returns the piece\'s '
@@ -197,13 +200,13 @@ PROPS['C11'] = {
 
 def c12_set(names):
     f = ['src/piecewise.rs: Piecewise::evaluate_v']
-    return [H(n, 'piecewise', 'segments N, arguments K = ' + n.split('_', 1)[1], False, f) for n in names]
+    return [H(n, 'piecewise', ('breakpoints on the concrete grid 0,0,1,1,2,..; exact size hint; ' if 'long' in n else '') + 'segments N, arguments K = ' + n.split('_', 1)[1], False, f) for n in names]
 
 
 PROPS['C12'] = {
     'verus': [],
-    'kani': {'quick': [kset('c12', c12_set(['c12_n1_k3', 'c12_n2_k3', 'c12_n3_k3', 'c12_n4_k3', 'c12_n5_k2', 'c12_n6_k2']))],
-             'thorough': [kset('c12', c12_set(['c12_n1_k3', 'c12_n2_k3', 'c12_n3_k3', 'c12_n4_k3', 'c12_n3_k4', 'c12_n4_k4', 'c12_n5_k2', 'c12_n6_k2', 'c12_n8_k2']), timeout=6000)]},
+    'kani': {'quick': [kset('c12', c12_set(['c12_n1_k3', 'c12_n2_k3', 'c12_n3_k3', 'c12_n4_k3', 'c12_n5_k2', 'c12_n6_k2', 'c12_long_n24_k2', 'c12_long_n17_k3']))],
+             'thorough': [kset('c12', c12_set(['c12_n1_k3', 'c12_n2_k3', 'c12_n3_k3', 'c12_n4_k3', 'c12_n3_k4', 'c12_n4_k4', 'c12_n5_k2', 'c12_n6_k2', 'c12_n8_k2', 'c12_n12_k2', 'c12_long_n24_k2', 'c12_long_n17_k3']), timeout=6000)]},
     'probe': True,
     'level': 'model_checking',
     'explanation': 'Kani harness on the real evaluate_v with recording Tag pieces and a counting input iterator: for sorted non-NaN ends and any non-NaN '
@@ -256,6 +259,8 @@ def c15_set(ns):
     for op, f in fs.items():
         out += hs(f'c15_{op}_n', 'piecewise', ns, 'pieces N = {n}', ['src/piecewise.rs: ' + f])
     out.append(H('c15_segment_ops', 'piecewise', None, True, ['src/piecewise.rs: Segment::{mul, mul_assign (x2), translate, derivative}']))
+    out.append(H('c15_poly1_neg_n3', 'piecewise', 'pieces N = 3 over Poly1, every finite coefficient', False, ['src/piecewise.rs: impl Neg for Piecewise<T> :: neg']))
+    out.append(H('c15_poly1_translate_n2', 'piecewise', 'pieces N = 2 over Poly1, every finite coefficient and shift', False, ['src/piecewise.rs: impl Translate for Piecewise<T> :: translate']))
     # the operation on the piece types that are themselves generic wrappers (shared with C14)
     out.append(H('c14_log_wrapper', 'log_poly', None, True, ['src/log_poly.rs: Log<T>::{mul, mul_assign, translate}']))
     out.append(H('c14_intoflog_wrapper', 'log_poly', SMALL + '; scalar in {2, -1, 0.5, 0}', False, ['src/log_poly.rs: IntOfLog<T>::{add, neg, mul, mul_assign, translate}']))
@@ -264,7 +269,7 @@ def c15_set(ns):
 
 PROPS['C15'] = {
     'verus': ['u_segment'],
-    'kani': {'quick': [kset('c15', c15_set([1, 2, 3, 4]), extra=['--solver', 'kissat'])], 'thorough': [kset('c15', c15_set([1, 2, 3, 4, 5, 8]), extra=['--solver', 'kissat'])]},
+    'kani': {'quick': [kset('c15', c15_set([1, 2, 3, 4, 20]), extra=['--solver', 'kissat'])], 'thorough': [kset('c15', c15_set([1, 2, 3, 4, 5, 8, 20]) + [H('c15_poly1_translate_n3', 'piecewise', 'pieces N = 3 over Poly1', False, [])], timeout=6000, extra=['--solver', 'kissat'])]},
     'probe': True,
     'level': 'other',
     'explanation': 'Kani harnesses on the real Piecewise::{mul, mul_assign, neg, translate} and the Segment-level operations with recording OpTag pieces: '
@@ -508,5 +513,7 @@ PROPS['C06']['verus_deps'] = {'u_pwsel': PW_EV, 'u_polyeval': ['Evaluate for Pol
 PROPS['C04']['verus_deps'] = {'u_pwsel': PW_EV, 'u_polyeval': ['Evaluate for Poly3 :: evaluate']}
 PROPS['C05']['verus_deps'] = {'u_pwsel': PW_EV, 'u_polyeval': ['Evaluate for Poly3 :: evaluate']}
 PROPS['C11']['verus_deps'] = {'u_polycalc': ['HasIntegral for', 'Translate for'], 'u_log': ['HasIntegral for', 'Translate for', 'Evaluate for IntOfLog']}
+for _p in ('C03', 'C12', 'C13', 'C06', 'C04', 'C05'):
+    PROPS[_p]['probe_also'] = ['C02']
 for _p in ('C03', 'C12', 'C13', 'C06', 'C04', 'C05', 'C11'):
     PROPS[_p]['assumptions'] = PROPS[_p]['assumptions'] + [DEP_NOTE + ': ' + '; '.join(f"{u}: {', '.join(v)}" for u, v in PROPS[_p]['verus_deps'].items())]
